@@ -40,11 +40,44 @@ def rule_OUT(ctx, tier):
         if not rec or not flag:
             rr.fail("transport-arm-missing:%s" % shortfn(fn), "`%s` has no flag-unreachable + retry for transport errors (flag sites %d, self calls %d)" % (shortfn(fn), len(flag), len(rec)), where=b.span)
             continue
+        WARMUP = (1 << 32) - 28  # rpc_errors::RPC_IN_WARMUP as the switch sees an i32
+
+        def is_warmup(f):
+            """`rpcerr.code` is known to be RPC_IN_WARMUP: a match arm (switch value) or a guard / `if` (comparison)"""
+            if f[0] == "eq" and f[2] == WARMUP and og.show(f[1]).endswith("f:code"):
+                return True
+            if f[0] == "truth":
+                from .rulekit import rel_of_term, const_of
+                for op, l, r in rel_of_term(f[1], f[2]):
+                    c = const_of(r)
+                    if op == "Eq" and og.show(l).endswith("f:code") and c and c[0] in (-28, WARMUP):
+                        return True
+            return False
+
+        def warmup_arm(x):
+            """the node answered, but only to say it is still starting up (-28): not a verdict on the request either"""
+            fs = facts_at(ctx, b, x)
+            return any(f[0] == "variant" and f[2] == "Rpc" for f in fs) and any(is_warmup(f) for f in fs)
         for x in flag + rec:
             if variant_fact(ctx, b, x, "Transport") and variant_fact(ctx, b, x, "JsonRpc"):
                 rr.ok("%s: %s on the JsonRpc(Transport) arm" % (shortfn(fn), shortfn(call_target(b.term(x)))))
+            elif warmup_arm(x):
+                rr.ok("%s: %s on the RPC_IN_WARMUP arm" % (shortfn(fn), shortfn(call_target(b.term(x)))))
             else:
-                rr.fail("transport-arm-guard:%s" % shortfn(fn), "`%s` is called outside the JsonRpc(Transport(_)) arm in `%s`" % (shortfn(call_target(b.term(x))), shortfn(fn)), where=b.line_of(x))
+                rr.fail("transport-arm-guard:%s" % shortfn(fn), "`%s` is called outside the JsonRpc(Transport(_)) / RPC_IN_WARMUP arms in `%s`" % (shortfn(call_target(b.term(x))), shortfn(fn)), where=b.line_of(x))
+        # a node that has just been restarted answers every RPC with -28 until it is ready: that is the tail of an outage the
+        # tower may not have noticed (it polls once a minute), not a rejection of the penalty and not "not in the mempool"
+        wedges = []
+        for sw in b.rpo():
+            if b.term(sw)["k"] != "switch":
+                continue
+            for succ, fs in ctx.pf.switch_facts(b, sw).items():
+                if any(is_warmup(f) for f in fs):
+                    wedges.append((sw, succ))
+        if wedges and all(always_reaches(b, [succ], rec) for sw, succ in wedges) and all(not reach_without_edges(b, succ, r_, {(fl, s_) for fl in flag for s_ in b.succ(fl)}, stop=lambda q: q in flag) for sw, succ in wedges for r_ in rec if r_ in b.reachable(succ)):
+            rr.ok("%s: RPC_IN_WARMUP flags the outage and re-issues the request" % shortfn(fn))
+        else:
+            rr.fail("warmup-is-a-verdict:%s" % shortfn(fn), "`%s` has no arm for RPC_IN_WARMUP (-28) that flags the outage and retries: a bitcoind that was restarted between two polls answers every call with -28 for minutes, which falls into the catch-all arm and becomes %s — the appointment is deleted although the node never judged the penalty" % (shortfn(fn), "`Rejected(UNKNOWN_JSON_RPC_EXCEPTION)`" if fn.endswith("send_transaction") else "'not in the mempool'"), where=b.span)
         for x in rec:
             a = arg_origin(ctx, b, x, 1)
             flagged_first = not reach_without_edges(b, 0, x, {(fl, s_) for fl in flag for s_ in b.succ(fl)}, stop=lambda q: q in flag)
